@@ -185,6 +185,13 @@ def _run(ctx):
         ctx.ob("R-GUARD", "page-overwritten-only-when-zero", okz, "the store to Bookmark.page is dominated by the test that the bookmark's page number is 0", rf.where(x[2]["ln"]),
                what="recursive_fix_pages can overwrite the page of a bookmark that has a page of its own (the store to Bookmark.page is not dominated by `page.0 == 0`; dominating tests: %s): a parent bookmark loses its destination to its first descendant's"
                     % [("" if tr else "!") + g for g, tr in gs])
+    # adjust_zero_pages starts the walk whenever there are bookmarks: the zero-page parents may sit at any depth, so no test of
+    # the roots' pages may stand in front of it
+    az = F.fn("Document::adjust_zero_pages")
+    azc = [c for x in lib.local_scope(F, az) for c in x.calls if c.local and c.cname.endswith("recursive_fix_pages") and x is az]
+    extra = [("" if tr else "!") + g for c in azc for g, tr in inv.rendered_guards(az, c.bb) if not re.match(r"^is_empty\(", g)]
+    ctx.ob("R-ORDER", "zero-page-fixup-always-started", len(azc) >= 1 and not extra, "adjust_zero_pages calls recursive_fix_pages unconditionally", az.where(),
+           what="adjust_zero_pages starts the fix-up only under %s: a zero-page parent below the top level keeps page (0, 0) and drops out of the table of contents when that does not hold" % extra)
     stp = [rf.rvname(s[2]["rv"], 3) for s in lib.stores_to_field(rf, "page", "Bookmark") if s[1] != "T"]
     ctx.ob("R-ORDER", "zero-page-gets-child-page", stp == ["objectid"], "a zero-page parent takes the page found among its descendants", rf.where(), what="a zero-page parent no longer takes the first descendant page")
 
